@@ -31,6 +31,19 @@ theorem timeTol_nonneg (chans : List (List (Rat × Concat.Wave))) : 0 ≤ Gen.co
   | maxStart => exact Concat.maxStart_nonneg chans
   | maxEnd => exact Concat.maxEnd_nonneg chans
 
+/-- channels with one coefficient per slot are not touched by the padding variants of C14 -/
+theorem fullCoeffsV_discrete (zl : Bool) (tol : Rat) (chans : List (List Rat × List Rat))
+    (h : ∀ c ∈ chans, c.2.length + 1 = c.1.length) :
+    fullCoeffsV zl tol (chans.map fun c => Chan.arr c.1 c.2) = fullCoeffs tol (chans.map fun c => Chan.arr c.1 c.2) := by
+  unfold fullCoeffsV
+  congr 1
+  rw [List.map_map]
+  apply List.map_congr_left
+  intro c hc
+  have := h c hc
+  have hne : ¬ (c.2.length = c.1.length) := by omega
+  simp [Chan.norm, normCoeff, hne]
+
 /-- pulses whose control Hamiltonians act on a common qubit do not overlap in time (start times `st0` in compile order) -/
 def PulseDisjoint (circular : Bool) (N : ℕ) (isQ : List (Instr Rat)) (st0 : List Rat) : Prop :=
   ∀ a b (ha : a < isQ.length) (hb : b < isQ.length), a ≠ b →
@@ -42,7 +55,8 @@ def PulseDisjoint (circular : Bool) (N : ℕ) (isQ : List (Instr Rat)) (st0 : Li
 `groups` the grouping loop builds, each with idle gaps `0` or above `time_tol` (`ValidG`, C12); pulses on a common qubit
 disjoint in time.  Then `compile` (C12's source-driven model) returns for every label the closed-form channel, and if the
 distinct grid points of these channels are more than `tol` apart (`SepAll`, C14), `get_full_coeffs` (C14's model) returns a
-merged grid and rows whose slice product — what `run_analytically` multiplies — is the product of the `ws` in scheduled
+merged grid and rows (the same for either shape `zl` of the step padding of C14: the channels have one coefficient per slot)
+whose slice product — what `run_analytically` multiplies — is the product of the `ws` in scheduled
 order. -/
 theorem pulses_product (circular : Bool) (N : ℕ) (enc : String × Int → ℕ) (henc : Function.Injective enc)
     (tol : Rat) (htol : 0 ≤ tol) (isQ : List (Instr Rat)) (ws : List (Matrix (St N) (St N) ℂ))
@@ -58,7 +72,7 @@ theorem pulses_product (circular : Bool) (N : ℕ) (enc : String × Int → ℕ)
         some (.ok (some ((groups.map (·.1)).zip (chans.map some)))) ∧
       chans.length = groups.length ∧
       (SepAll tol (chans.map (·.1)) → ∃ (T : List Rat) (rows : List (List Rat)),
-        fullCoeffsV true tol (chans.map fun c => Chan.arr c.1 c.2) = .ok (T, rows) ∧
+        (∀ zl : Bool, fullCoeffsV zl tol (chans.map fun c => Chan.arr c.1 c.2) = .ok (T, rows)) ∧
         ordProdL (runAnalytically 0 ((groups.map (·.1)).map (labelHam circular N enc)) (slices T rows)) =
           ordProd ((schedOrder isQ.length sch).map fun k => ws.getD k 1)) := by
   have hdz : ∀ i ∈ isQ.map (toC enc), (i.duration != 0) = true := by
@@ -157,7 +171,15 @@ theorem pulses_product (circular : Bool) (N : ℕ) (enc : String × Int → ℕ)
         obtain ⟨l, hl, rfl⟩ := List.mem_map.mp hc
         exact Or.inl (hspec l hl).2.2.1)
       hsep
-    refine ⟨_, _, hfull, ?_⟩
+    have hnorm : ∀ zl : Bool, fullCoeffsV zl tol (chans.map fun c => Chan.arr c.1 c.2) =
+        fullCoeffsV true tol (chans.map fun c => Chan.arr c.1 c.2) := by
+      intro zl
+      have hl : ∀ c ∈ chans, c.2.length + 1 = c.1.length := by
+        intro c hc
+        obtain ⟨l, hl, rfl⟩ := List.mem_map.mp hc
+        exact (hspec l hl).2.2.1
+      rw [fullCoeffsV_discrete zl tol chans hl, fullCoeffsV_discrete true tol chans hl]
+    refine ⟨_, _, fun zl => (hnorm zl).trans hfull, ?_⟩
     have hcomp := schedJ_compatible circular N enc henc isQ st0 σ hσ hsorted hpos hdisj
     have key := channels_sliceProd (labelHam circular N enc) thr Gen.concatSrc.cat.padTol hthr hτ pm final ms hms ls
       hlsne hnd J hJl hch hcomp
